@@ -59,6 +59,7 @@ const MODES: [Option<Mode>; 4] = [None, Some(Mode::Trunc), Some(Mode::Ceil), Som
 
 struct PlainValues {
     times: Vec<i128>,
+    tier: Tier,
 }
 
 impl Space for PlainValues {
@@ -108,7 +109,7 @@ impl Space for PlainValues {
         }
         // ---- PlainDateTime x times x precision x mode (ISO + one other calendar)
         for (k, t) in self.times.iter().enumerate() {
-            if (k + i as usize) % 9 != 0 {
+            if self.tier == Tier::Quick && (k + i as usize) % 9 != 0 {
                 continue; // each date takes a ninth of the time alphabet; all times are covered across dates
             }
             let Oc::Ok(dt) = call(|| plain_date_time(days_from_civil(y, m, d), *t)) else { continue };
@@ -561,7 +562,7 @@ impl Space for ZonedNamed {
 }
 
 pub fn spaces(env: &Env) -> Vec<Box<dyn Space>> {
-    vec![Box::new(Names { zones: zone_names() }), Box::new(Durations { list: duration_list() }), Box::new(Times { times: times() }), Box::new(InstantsZoned), Box::new(PlainValues { times: times() }), Box::new(ZonedNamed { names: zone_names(), tier: env.tier })]
+    vec![Box::new(Names { zones: zone_names() }), Box::new(Durations { list: duration_list() }), Box::new(Times { times: times() }), Box::new(InstantsZoned), Box::new(PlainValues { times: times(), tier: env.tier }), Box::new(ZonedNamed { names: zone_names(), tier: env.tier })]
 }
 
 pub fn run(env: &Env) -> i32 {
